@@ -386,19 +386,24 @@ func ExchangeCases(tier string, seed uint64) []ExCase {
 	// the upstream proxy rejects the transport's CONNECT with a body that has no framing (no Content-Length, not chunked)
 	// and KEEPS ITS CONNECTION OPEN: the end of that body never comes.  The client must get the rejection (or a close)
 	// within a bounded time; the wait here (1.5 s) is far below how long the upstream holds the connection (until the case ends).
-	add("rt-upstream-rejects-connect-403-unframed-keeps-open", "rt-connerr", func(e *Env) {
+	for _, k := range []struct{ n, reply string }{
+		{"unframed-keeps-open", "HTTP/1.1 403 Forbidden\r\nContent-Type: text/plain\r\nX-Upstream: vf\r\n\r\nrejected, and more may follow"},
+		{"short-body-keeps-open", "HTTP/1.1 403 Forbidden\r\nContent-Type: text/plain\r\nContent-Length: 100\r\nX-Upstream: vf\r\n\r\nonly ten b"},
+	} {
+	k := k
+	add("rt-upstream-rejects-connect-403-"+k.n, "rt-connerr", func(e *Env) {
 		up := e.Peer(func(c net.Conn, n int) {
 			if _, err := ReadHead(c, 5*time.Second); err != nil {
 				c.Close()
 				return
 			}
-			c.Write([]byte("HTTP/1.1 403 Forbidden\r\nContent-Type: text/plain\r\nX-Upstream: vf\r\n\r\nrejected, and more may follow"))
+			c.Write([]byte(k.reply))
 			buf := make([]byte, 1024)
 			c.SetReadDeadline(time.Now().Add(15 * time.Second))
 			c.Read(buf)
 			c.Close()
 		})
-		e.Start(func(op *Options) { op.Upstream = "http://" + up.Addr })
+		e.Start(func(op *Options) { op.Upstream = "http://" + up.Addr; op.ConnectTimeout = 400 * time.Millisecond })
 		c := e.Client()
 		ex := Ex{Val: Val{Rt: 2, St: stClass(403)}, Method: "GET", UpStatus: 403}
 		if _, err := c.Write([]byte(getReq("https://127.0.0.1:9/x"))); err != nil {
@@ -415,6 +420,7 @@ func ExchangeCases(tier string, seed uint64) []ExCase {
 		e.End(c, co)
 		e.O.Exs = []Ex{ex}
 	})
+	}
 
 	// response modifier fails
 	for _, f := range []string{"plain", "deny"} {
